@@ -121,6 +121,7 @@ T_C04 == /\ Proj(Visible(hosts)) = Proj(ref)          \* raw tables
          /\ Cardinality(LEApi) = Len(LE.api)
          /\ Visible(hosts) = ref                       \* including the last-seen stamps
 T_C05 == /\ \A i \in 1..Len(LE.hosts) : LE.hosts[i].ip \in IPS /\ LE.hosts[i].mac \in MACS
+         /\ \A i \in 1..Len(LE.hosts) : LE.hosts[i].amac = LE.hosts[i].mac   \* the host's own MAC equals its entry's address
          /\ \A i \in 1..Len(LE.macs) : LE.macs[i].mac \in MACS
          /\ \A i, j \in 1..Len(LE.macs) : i # j => LE.macs[i].mac # LE.macs[j].mac   \* unique per address
          /\ \A i \in 1..Len(LE.macs) : \A j \in 1..Len(LE.macs[i].list) : LE.macs[i].list[j] \in IPS
